@@ -2,8 +2,9 @@ import Mkts.Model.CatalogConc
 /-! Lemmas for the two-thread catalog model: a set of states that contains the initial state and
 is closed under the step relation contains the result of EVERY schedule. -/
 namespace Mkts.CatalogConc
+open Mkts.Catalog
 
-theorem step_mem_succs {s s' : Sys} {t : Nat} (h : s.step t = some s') : s' ∈ succs s := by
+theorem step_mem_succs {v : Variant} {s s' : Sys} {t : Nat} (h : s.step v t = some s') : s' ∈ succs v s := by
   unfold succs
   rw [List.mem_filterMap]
   refine ⟨t, ?_, h⟩
@@ -17,15 +18,15 @@ theorem step_mem_succs {s s' : Sys} {t : Nat} (h : s.step t = some s') : s' ∈ 
     · have : s.threads[t]? = none := List.getElem?_eq_none_iff.2 hge
       rw [this] at hth; cases hth
 
-theorem run_mem_of_closed {vis : List Sys} (hc : closed vis = true) :
-    ∀ (sched : List Nat) (s fin : Sys), s ∈ vis → s.run sched = some fin → fin ∈ vis := by
+theorem run_mem_of_closed {v : Variant} {vis : List Sys} (hc : closed v vis = true) :
+    ∀ (sched : List Nat) (s fin : Sys), s ∈ vis → Sys.run v s sched = some fin → fin ∈ vis := by
   intro sched
   induction sched with
   | nil => intro s fin hs h; simp [Sys.run] at h; rw [← h]; exact hs
   | cons t ts ih =>
     intro s fin hs h
     simp only [Sys.run] at h
-    cases hst : s.step t with
+    cases hst : s.step v t with
     | none => simp [hst] at h
     | some s' =>
       simp only [hst] at h
@@ -48,7 +49,7 @@ theorem mem_addNew_of_mem {x : Sys} : ∀ (cand vis : List Sys), x ∈ vis → x
     · exact ih vis h
     · exact ih _ (List.mem_append_left _ h)
 
-theorem mem_bfs_of_mem {x : Sys} : ∀ (f : Nat) (fr vis : List Sys), x ∈ vis → x ∈ bfs f fr vis := by
+theorem mem_bfs_of_mem {v : Variant} {x : Sys} : ∀ (f : Nat) (fr vis : List Sys), x ∈ vis → x ∈ bfs v f fr vis := by
   intro f
   induction f with
   | zero => intro fr vis h; simpa [bfs] using h
